@@ -115,6 +115,23 @@ func diffKind(got, want [][]byte) (kind string, idx int) {
 			continue
 		}
 		g, w := got[i], want[i]
+		for j := i + 1; j < len(want) && j <= i+8; j++ {
+			if bytes.Equal(g, want[j]) && (len(g) > 0 || j == i+1) {
+				allEmpty := true
+				for _, s := range want[i:j] {
+					if len(s) != 0 {
+						allEmpty = false
+					}
+				}
+				if allEmpty {
+					return "empty-line-not-handed", i
+				}
+				return "line-skipped", i
+			}
+		}
+		if i > 0 && len(g) > 0 && bytes.Equal(g, got[i-1]) {
+			return "line-handed-twice", i
+		}
 		switch {
 		case i+1 < len(want) && bytes.Equal(g, append(append([]byte{}, w...), want[i+1]...)):
 			return "two-lines-joined-without-newline", i
@@ -162,8 +179,8 @@ func diffKind(got, want [][]byte) (kind string, idx int) {
 // reads that delivered the body (only meaningful for plain bodies, where the
 // reads are under the harness's control).
 func lineContext(c *Case, reads []int, idx int) string {
-	if c.Gzip {
-		return "gzip"
+	if c.Gzip || c.Net {
+		return "reads-not-controlled(gzip/tcp)"
 	}
 	// byte range of line idx in body
 	start, k := 0, 0
@@ -200,27 +217,17 @@ func lineContext(c *Case, reads []int, idx int) string {
 			startsAtRead = true
 		}
 	}
-	if end-start >= readBufLen {
-		ctx = append(ctx, "longer-than-read-buffer")
-	}
-	if spans {
+	switch {
+	case spans:
 		ctx = append(ctx, "spans-reads")
-	}
-	if nlFirst {
+	case nlFirst:
 		ctx = append(ctx, "newline-first-byte-of-read")
+	default:
+		ctx = append(ctx, "inside-one-read")
 	}
-	if !spans && !nlFirst {
-		if startsAtRead {
-			ctx = append(ctx, "inside-one-read(at-read-start)")
-		} else {
-			ctx = append(ctx, "inside-one-read")
-		}
-	}
+	_ = startsAtRead
 	if unterminated {
 		ctx = append(ctx, "final-unterminated")
-	}
-	if end == start {
-		ctx = append(ctx, "empty-line")
 	}
 	return strings.Join(ctx, ",")
 }
@@ -276,6 +283,41 @@ func shape(wire []byte, reads []int, coarse bool) string {
 		}
 		flush()
 		off += r
+	}
+	return sb.String()
+}
+
+// coarseShape abstracts further (used for bodies longer than 7 in the
+// exhaustive part, where exact shapes are nearly as many as cases): per read
+// only whether it starts / ends with a newline and whether it holds further
+// newlines.
+func coarseShape(wire []byte, reads []int) string {
+	var sb strings.Builder
+	off := 0
+	for _, r := range reads {
+		seg := wire[off : off+r]
+		off += r
+		cl := func(b byte) byte {
+			if b == '\n' {
+				return 'n'
+			}
+			return 'x'
+		}
+		switch {
+		case r == 0:
+			sb.WriteByte('0')
+		case r == 1:
+			sb.WriteByte(cl(seg[0]))
+		default:
+			sb.WriteByte(cl(seg[0]))
+			if bytes.IndexByte(seg[1:r-1], '\n') >= 0 {
+				sb.WriteByte('N')
+			} else if r > 2 {
+				sb.WriteByte('_')
+			}
+			sb.WriteByte(cl(seg[r-1]))
+		}
+		sb.WriteByte('|')
 	}
 	return sb.String()
 }
